@@ -723,6 +723,10 @@ SPECS = [
     dict(file=NAMELIST, fn="validate_understood_properties", coq="gen_validate_understood_properties", kind="validate"),
     dict(file=BMAD, fn="convert_element", coq="gen_bmad_convert_element", kind="convert_element"),
     dict(file=ELEGANT, fn="convert_element", coq="gen_elegant_convert_element", kind="convert_element"),
+    dict(file=BMAD, fn="convert_lattice_to_cheetah", coq="gen_bmad_merge_passes", kind="passes", part="merge passes"),
+    dict(file=ELEGANT, fn="convert_lattice_to_cheetah", coq="gen_elegant_merge_passes", kind="passes", part="merge passes"),
+    dict(file=NAMELIST, fn="define_element", coq="gen_define_element_pattern", kind="literal", var="pattern", part="regex literal"),
+    dict(file=NAMELIST, fn="merge_delimiter_continued_lines", coq="gen_merge_delimiter_continued_lines_ast_sha256", kind="astpin", part="AST pin"),
     dict(file=LJSON, fn="convert_element", coq="gen_lj_convert_element", kind="lj", params=[("element", "leaf")], ret="(str,str,dictJv)", locals={},
          section="lj"),
     dict(file=LJSON, fn="convert_segment", coq="gen_lj_convert_segment", kind="lj", params=[("segment", "tree")], ret="(dictJ,dictL)",
@@ -1248,6 +1252,98 @@ def _lj(tr, mod, f, spec):
 
 
 EXTRA["lj"] = _lj
+
+
+# ====================================================================================================================
+# The line front end (converters/utils/fortran_namelist.py and the head of convert_lattice_to_cheetah).
+#   passes   the consecutive `x = merge_delimiter_continued_lines(prev, delimiter=d, remove_delimiter=b)` statements of
+#            convert_lattice_to_cheetah -> gen_<dialect>_merge_passes merge lines (merge = the opaque primitive), data flow checked
+#   literal  a regex literal assigned to `pattern` in a function -> gen_<fn>_pattern : string (the regex itself stays an opaque
+#            primitive; the model Parse/Lines.v define_header is a model of exactly that pattern text)
+#   astpin   a function too imperative for the fragment (index arithmetic on a list with holes): the sha256 of its AST with local
+#            variable names normalised and docstring removed -> gen_<fn>_ast_sha256 : string.  NOT a translation: a pin.  Any
+#            edit but comments / formatting / local renames / the docstring changes it.
+def _passes(tr, mod, f, spec):
+    calls = []
+    prev = None
+    for st in f.body:
+        if (isinstance(st, ast.Assign) and len(st.targets) == 1 and isinstance(st.targets[0], ast.Name) and isinstance(st.value, ast.Call)
+                and isinstance(st.value.func, ast.Name) and st.value.func.id == "merge_delimiter_continued_lines"):
+            c = st.value
+            b = mod.bind.get("merge_delimiter_continued_lines", [])
+            if len(b) != 1 or (b[0][0], b[0][1]) != ORIGINS["merge_delimiter_continued_lines"]:
+                mod.fail(c, "merge_delimiter_continued_lines must be imported exactly once from cheetah.converters.utils.fortran_namelist")
+            kw = {k.arg: k.value for k in c.keywords}
+            if len(c.args) != 1 or not isinstance(c.args[0], ast.Name) or set(kw) != {"delimiter", "remove_delimiter"}:
+                mod.fail(c, "merge_delimiter_continued_lines(prev, delimiter=.., remove_delimiter=..) only")
+            d, r = kw["delimiter"], kw["remove_delimiter"]
+            if not (isinstance(d, ast.Constant) and isinstance(d.value, str) and len(d.value) == 1 and 32 < ord(d.value) < 127 and d.value != '"'
+                    and isinstance(r, ast.Constant) and isinstance(r.value, bool)):
+                mod.fail(c, "delimiter must be a one-character literal and remove_delimiter a boolean literal")
+            if prev is None:
+                if c.args[0].id != "lines":
+                    mod.fail(c, "the first merge pass must read `lines`")
+            elif c.args[0].id != prev:
+                mod.fail(c, "a merge pass does not read the result of the previous pass")
+            prev = st.targets[0].id
+            calls.append((d.value, r.value))
+    if not calls:
+        mod.fail(f, "no merge pass found")
+    # the result of the last pass is what parse_lines receives
+    uses = [n for n in ast.walk(f) if isinstance(n, ast.Call) and isinstance(n.func, ast.Name) and n.func.id == "parse_lines"]
+    if len(uses) != 1 or len(uses[0].args) != 1 or not isinstance(uses[0].args[0], ast.Name) or uses[0].args[0].id != prev or uses[0].keywords:
+        mod.fail(f, "parse_lines must be called exactly once, on the result of the last merge pass")
+    reads = [n for n in ast.walk(f) if isinstance(n, ast.Call) and isinstance(n.func, ast.Name) and n.func.id == "read_clean_lines"]
+    tgt = [st for st in f.body if isinstance(st, ast.Assign) and st.value in reads]
+    if len(reads) != 1 or len(tgt) != 1 or ast.unparse(tgt[0].targets[0]) != "lines":
+        mod.fail(f, "`lines = read_clean_lines(..)` expected exactly once")
+    t = "lines"
+    for d, r in calls:
+        t = f'(merge "{d}"%char {"true" if r else "false"} {t})'
+    return f"Definition {spec['coq']} (merge : ascii -> bool -> list str -> list str) (lines : list str) : list str :=\n  {t}.\n"
+
+
+def _literal(tr, mod, f, spec):
+    vals = [st.value for st in f.body if isinstance(st, ast.Assign) and len(st.targets) == 1 and isinstance(st.targets[0], ast.Name)
+            and st.targets[0].id == spec["var"]]
+    if len(vals) != 1 or not (isinstance(vals[0], ast.Constant) and isinstance(vals[0].value, str)):
+        mod.fail(f, f"`{spec['var']} = <string literal>` expected exactly once in {f.name}")
+    uses = [n for n in ast.walk(f) if isinstance(n, ast.Call) and ast.unparse(n.func) == "re.fullmatch"]
+    if len(uses) != 1 or ast.unparse(uses[0]) != f"re.fullmatch({spec['var']}, line)":
+        mod.fail(f, f"re.fullmatch({spec['var']}, line) expected exactly once in {f.name}")
+    return f"Definition {spec['coq']} : string := {coq_string(vals[0].value, mod, f)}.\n"
+
+
+def normalised_dump(f):
+    """ast.dump of the function without docstring, annotations and with local names (parameters and assigned names) numbered in order
+    of first occurrence"""
+    f = ast.parse(ast.unparse(f)).body[0]
+    if f.body and isinstance(f.body[0], ast.Expr) and isinstance(f.body[0].value, ast.Constant) and isinstance(f.body[0].value.value, str):
+        f.body = f.body[1:]
+    f.returns = None
+    local = [a.arg for a in f.args.args]
+    for n in ast.walk(f):
+        if isinstance(n, ast.Name) and isinstance(n.ctx, ast.Store) and n.id not in local:
+            local.append(n.id)
+    ren = {v: f"v{k}" for k, v in enumerate(local)}
+    for n in ast.walk(f):
+        if isinstance(n, ast.Name) and n.id in ren:
+            n.id = ren[n.id]
+        if isinstance(n, ast.arg):
+            n.annotation = None
+            n.arg = ren.get(n.arg, n.arg)
+        if isinstance(n, ast.keyword) and False:
+            pass
+    f.name = "f"
+    return ast.dump(f, include_attributes=False)
+
+
+def _astpin(tr, mod, f, spec):
+    sha = hashlib.sha256(normalised_dump(f).encode()).hexdigest()
+    return f"Definition {spec['coq']} : string := \"{sha}\".\n"
+
+
+EXTRA.update(passes=_passes, literal=_literal, astpin=_astpin)
 
 
 def locate(repo):
